@@ -795,6 +795,65 @@ func vfRunAuth(f []string) string {
 	return "req=" + vfHex(req) + " dgs=" + strings.Join(dgs, ",") + " reqma=" + reqma + " got=" + got
 }
 
+// ---------------------------------------------------------------- literal tables
+
+// vfKind characterises a decoder by which probe lengths give a non-empty result and by the shape of the
+// result for a 4-octet probe: 'o' rendered address/prefix, 'd' decimal number, 'r' raw string, '-' empty.
+func vfKind(dec func([]byte) string) string {
+	out := ""
+	for _, n := range []int{0, 3, 4, 5, 16} {
+		if dec([]byte("abcdefghijklmnopqrstuvwxyz")[:n]) != "" {
+			out += "1"
+		} else {
+			out += "0"
+		}
+	}
+	v := dec([]byte("abcd"))
+	switch {
+	case v == "":
+		out += "-"
+	case strings.ContainsAny(v, "./:"):
+		out += "o"
+	case strings.Trim(v, "0123456789") == "":
+		out += "d"
+	default:
+		out += "r"
+	}
+	return out
+}
+
+func vfRunLits() string {
+	ids := []int{}
+	for t, ok := range identificationAttrTypes {
+		if ok {
+			ids = append(ids, int(t))
+		}
+	}
+	sort.Ints(ids)
+	is := []string{}
+	for _, i := range ids {
+		is = append(is, strconv.Itoa(i))
+	}
+	t1 := buildTier1Index()
+	k1 := []int{}
+	for t := range t1 {
+		k1 = append(k1, int(t))
+	}
+	sort.Ints(k1)
+	s1 := []string{}
+	for _, t := range k1 {
+		m := t1[byte(t)]
+		s1 = append(s1, fmt.Sprintf("%d:%s:%s", t, hex.EncodeToString([]byte(m.internal)), vfKind(func(b []byte) string { return m.decode(radius.Attribute(b)) })))
+	}
+	t2 := buildTier2Index(DefaultVendorID)
+	s2 := []string{}
+	for k, m := range t2 {
+		s2 = append(s2, fmt.Sprintf("%010d:%03d:%s:%s", k.vendorID, k.vendorType, hex.EncodeToString([]byte(m.internal)), vfKind(m.decode)))
+	}
+	sort.Strings(s2)
+	return "ident=" + strings.Join(is, ",") + " tier1=" + strings.Join(s1, ",") + " tier2=" + strings.Join(s2, ",")
+}
+
 // ---------------------------------------------------------------- driver
 
 func vfRunCase(line string) (res string) {
@@ -821,6 +880,8 @@ func vfRunCase(line string) (res string) {
 			done <- vfRunCoA(f)
 		case "auth":
 			done <- vfRunAuth(f)
+		case "lits":
+			done <- vfRunLits()
 		default:
 			done <- "badcase"
 		}
